@@ -641,7 +641,9 @@ func (bridge *ExprBridge) preprocessIsNullMasked(expression string) (string, err
 	}
 
 	// 替换简单字段的IS NOT NULL
-	result = reNotNull.ReplaceAllString(result, "$1 != nil")
+	result = reNotNull.ReplaceAllStringFunc(result, func(m string) string {
+		return nullSafePath(reNotNull.FindStringSubmatch(m)[1]) + " != nil"
+	})
 
 	// 匹配简单字段的 IS NULL 模式
 	isNullPattern := `(\w+(?:\.\w+)*)\s+IS\s+NULL`
@@ -651,7 +653,9 @@ func (bridge *ExprBridge) preprocessIsNullMasked(expression string) (string, err
 	}
 
 	// 再替换简单字段的IS NULL
-	result = reNull.ReplaceAllString(result, "$1 == nil")
+	result = reNull.ReplaceAllStringFunc(result, func(m string) string {
+		return nullSafePath(reNull.FindStringSubmatch(m)[1]) + " == nil"
+	})
 
 	return result, nil
 }
@@ -952,4 +956,16 @@ func isASCIIString(s string) bool {
 		}
 	}
 	return true
+}
+
+// nullSafePath writes a dotted path for a NULL test so that a missing, NULL or non-map step on the way
+// yields nil instead of an evaluation error (x.y IS NULL is true when x itself is NULL or absent):
+// x.y.z becomes get(get(x, "y"), "z"); expr-lang's get returns nil where the step cannot be taken.
+func nullSafePath(path string) string {
+	parts := strings.Split(path, ".")
+	out := parts[0]
+	for _, p := range parts[1:] {
+		out = "get(" + out + ", \"" + p + "\")"
+	}
+	return out
 }
